@@ -9,6 +9,7 @@ package funcGen
 // closure context it indexes. A callee may write value-stack storage at or above its own frame, memo fields of lists
 // and objects it allocates; it never shrinks the storage and never touches the caller's slots.
 
+//@ ghost func pureImpl(impl any) bool
 //@ ghost func fs(f any) int
 //@ ghost func fsmin(f any) int
 //@ ghost func cl(f any) int
@@ -36,6 +37,7 @@ package funcGen
 //@   option no-impl-check
 //@   requires validStack(st)
 //@   ensures result1 == nil ==> nonnil(result0)
+//@   ensures[function-of-operands] pureImpl(self) ==> ((result1 == nil) == opOK(self, box(a), box(b))) && (result1 == nil ==> box(result0) == opV(self, box(a), box(b)))
 //@   ensures len(st.storage.data) >= old(len(st.storage.data))
 //@   ensures[storage-array] ref(st.storage.data) == old(ref(st.storage.data)) || fresh(st.storage.data)
 //@   ensures forall i in 0..st.offs+st.size :: st.storage.data[i] == old(st.storage.data[i])
@@ -92,15 +94,20 @@ package funcGen
 //@   property C01
 //@   option params=ast,gc,g
 //@   requires g != nil && ast != nil
+//@   requires[flags-sound C02] flagsSound(g)
 //@   ensures[compiled-for-context] result2 == nil && result0 != nil ==> fs(result0) == len(gc.am) && cl(result0) == len(gc.cm)
+//@   ensures[purity-flag-sound C02] result2 == nil && result0 != nil && result1 ==> pureFn(result0)
 //@   assigns any []string
 //@ interface-contract UnaryOperatorImpl.Calc
 //@   option no-impl-check
+//@   option params=a
 //@   ensures result1 == nil ==> nonnil(result0)
+//@   ensures[function-of-operand] ((result1 == nil) == unOK(self, box(a))) && (result1 == nil ==> box(result0) == unV(self, box(a)))
 //@   assigns nothing
 //@ type-contract ToBool
 //@   option params=c
 //@   requires self != nil
+//@   ensures[function-of-operand] result1 == tbOK(box(c)) && (result1 ==> result0 == tbV(box(c)))
 //@   assigns nothing
 //@ type-contract BoolFunc
 //@   option params=st,a,b
@@ -116,6 +123,7 @@ package funcGen
 //@ interface-contract ListHandler.AccessList
 //@   option no-impl-check
 //@   ensures result1 == nil ==> nonnil(result0)
+//@   ensures[function-of-operands] ((result1 == nil) == accOK(box(list), box(index))) && (result1 == nil ==> box(result0) == accV(box(list), box(index)))
 //@   assigns any value.List.items, any value.List.itemsPresent, any value.List.iterable
 //@ interface-contract MapHandler.FromMap
 //@   option no-impl-check
@@ -124,6 +132,7 @@ package funcGen
 //@ interface-contract MapHandler.AccessMap
 //@   option no-impl-check
 //@   ensures result1 == nil ==> nonnil(result0)
+//@   ensures[function-of-operands] ((result1 == nil) == fieldOK(box(m), key)) && (result1 == nil ==> box(result0) == fieldV(box(m), key))
 //@   assigns nothing
 //@ interface-contract MapHandler.IsMap
 //@   option no-impl-check
@@ -131,21 +140,29 @@ package funcGen
 //@ interface-contract ClosureHandler.FromClosure
 //@   option no-impl-check
 //@   requires[function-invariant] staticOK(c)
+//@   requires[purity-flag C02] c.IsPure ==> pureFn(c.Func)
 //@   ensures nonnil(result)
 //@   assigns nothing
 //@ interface-contract ClosureHandler.ToClosure
 //@   option no-impl-check
 //@   option params=c
-//@   ensures result1 ==> staticOK(result0)
+//@   ensures result1 ==> staticOK(result0) && (result0.IsPure ==> pureFn(result0.Func))
 //@   assigns nothing
 //@ interface-contract MethodHandler.GetMethod
 //@   option no-impl-check
-//@   ensures result1 == nil ==> result0.Func != nil && (result0.Args == -1 || result0.Args >= 1) && (result0.Args >= 1 ==> fs(result0.Func) == result0.Args) && (result0.Args == -1 ==> fs(result0.Func) < 0 && fsmin(result0.Func) <= 1) && cl(result0.Func) == 0
+//@   ensures result1 == nil ==> result0.Func != nil && (result0.Args == -1 || result0.Args >= 1) && (result0.Args >= 1 ==> fs(result0.Func) == result0.Args) && (result0.Args == -1 ==> fs(result0.Func) < 0 && fsmin(result0.Func) <= 1) && cl(result0.Func) == 0 && (result0.IsPure ==> pureFn(result0.Func))
 //@   assigns nothing
 
 // registered static functions: what AddStaticFunction is given (the registered literals are verified, one unit per
 // table entry, for exactly this frame: size == Args, or any size for Args < 0)
 //@ predicate compiledFor(f any, gc any) = f != nil && fs(f) == len(gc.am) && cl(f) == len(gc.cm)
+
+// C02, purity: pureFn(f): running the compiled function f executes no operator or function that is registered as
+// impure (given that the closures it finds in its frame are pure themselves). Each literal's attribute states what its
+// purity is, read off its body; what is proved is that the flag GenerateFunc returns is never more optimistic than that
+// (the optimizer pre-evaluates closures whose flag is true).
+//@ ghost func pureFn(f any) bool
+//@ predicate flagsSound(g any) = (forall k string :: haskey(g.opMap, k) ==> (g.opMap[k].IsPure ==> pureImpl(g.opMap[k].Impl))) && (forall k string :: haskey(g.staticFunctions, k) ==> (g.staticFunctions[k].IsPure ==> pureFn(g.staticFunctions[k].Func)))
 
 // text rendering used in error messages only: no effect on program state (trusted)
 //@ func (f *FunctionDescription) String
@@ -168,9 +185,11 @@ package funcGen
 //@   safety C04
 //@   requires g != nil
 //@   requires[ast-present] forall i in 0..len(a) :: a[i] != nil
+//@   requires[flags-sound C02] flagsSound(g)
 //@   ensures[each-compiled-for-context] result2 == nil ==> len(result0) == len(a) && fresh(result0) && (forall i in 0..len(a) :: compiledFor(result0[i], gc))
+//@   ensures[purity-flag-sound C02] result2 == nil && result1 ==> (forall i in 0..len(a) :: pureFn(result0[i]))
 //@   assigns any []string
-//@   loop 1 invariant 0 <= rangeidx && rangeidx <= len(a) && len(args) == len(a) && fresh(args) && (forall i in 0..rangeidx :: compiledFor(args[i], gc))
+//@   loop 1 invariant 0 <= rangeidx && rangeidx <= len(a) && len(args) == len(a) && fresh(args) && (forall i in 0..rangeidx :: compiledFor(args[i], gc)) && (pure ==> (forall i in 0..rangeidx :: pureFn(args[i])))
 
 // pending call arguments occupy anonymous slots behind the named ones
 //@ func (c GeneratorContext) addPendingArgs
@@ -187,9 +206,11 @@ package funcGen
 //@   safety C04
 //@   requires g != nil && pending >= 0
 //@   requires[ast-present] forall i in 0..len(a) :: a[i] != nil
+//@   requires[flags-sound C02] flagsSound(g)
 //@   ensures[each-compiled-for-its-slot] result2 == nil ==> len(result0) == len(a) && fresh(result0) && (forall i in 0..len(a) :: result0[i] != nil && fs(result0[i]) == len(gc.am)+pending+i && cl(result0[i]) == len(gc.cm))
+//@   ensures[purity-flag-sound C02] result2 == nil && result1 ==> (forall i in 0..len(a) :: pureFn(result0[i]))
 //@   assigns any []string
-//@   loop 1 invariant 0 <= rangeidx && rangeidx <= len(a) && len(args) == len(a) && fresh(args) && (forall i in 0..rangeidx :: args[i] != nil && fs(args[i]) == len(gc.am)+pending+i && cl(args[i]) == len(gc.cm))
+//@   loop 1 invariant 0 <= rangeidx && rangeidx <= len(a) && len(args) == len(a) && fresh(args) && (forall i in 0..rangeidx :: args[i] != nil && fs(args[i]) == len(gc.am)+pending+i && cl(args[i]) == len(gc.cm)) && (pure ==> (forall i in 0..rangeidx :: pureFn(args[i])))
 
 //@ func (g *FunctionGenerator[V]) genCodeMap
 //@   trusted
@@ -200,37 +221,43 @@ package funcGen
 //@   property C01
 //@   safety C04
 //@   requires g != nil && a != nil
+//@   requires[flags-sound C02] flagsSound(g)
 //@   ensures[compiled-for-context] result2 == nil ==> compiledFor(result0, gc)
+//@   ensures[purity-flag-sound C02] result2 == nil && result1 ==> pureFn(result0)
 //@   assigns any []string
 // TRUSTED literal: the code that builds a closure value and copies the captured outer values into its context
 // (nested function literals and a function type local to createClosureLiteralFunc are outside the engine's subset)
-//@   closure-spec "closureContext := make([]V, len(accessContextOperations))" as ParserFunc attr fs(self) = len(gc.am), cl(self) = len(gc.cm) trusted
+//@   closure-spec "closureContext := make([]V, len(accessContextOperations))" as ParserFunc attr fs(self) = len(gc.am), cl(self) = len(gc.cm), pureFn(self) = true trusted
 
 //@ func (g *FunctionGenerator[V]) GenerateFunc
 //@   property C01
 //@   safety C04
 //@   requires g != nil
 //@   requires[ast-present] ast != nil
+//@   requires[flags-sound C02] flagsSound(g)
 //@   ensures[compiled-for-context] result2 == nil ==> compiledFor(result0, gc)
+//@   ensures[purity-flag-sound C02] result2 == nil && result1 ==> pureFn(result0)
 //@   assigns any []string
 //@   loop 1 invariant 0 <= rangeidx && rangeidx <= len(a.Cases) && (forall i in 0..len(cases) :: compiledFor(cases[i].constFunc, gc) && compiledFor(cases[i].resultFunc, gc)) && (cap(cases) == 0 || fresh(cases))
-//@   closure-spec "return a.Value, nil" as ParserFunc attr fs(self) = len(gc.am), cl(self) = len(gc.cm) assume nonnil(a.Value)
-//@   closure-spec "return st.Get(index), nil" as ParserFunc attr fs(self) = len(gc.am), cl(self) = len(gc.cm)
-//@   closure-spec "return cs[index], nil" as ParserFunc attr fs(self) = len(gc.am), cl(self) = len(gc.cm)
-//@   closure-spec "st.Push(va)" as ParserFunc attr fs(self) = len(gc.am), cl(self) = len(gc.cm)
-//@   closure-spec "g.toBool(condVal)" as ParserFunc attr fs(self) = len(gc.am), cl(self) = len(gc.cm) assume g.toBool != nil
-//@   closure-spec "error in switch-case" as ParserFunc attr fs(self) = len(gc.am), cl(self) = len(gc.cm) assume g.isEqual != nil
-//@   closure-spec "catchFunc(st, cs)" as ParserFunc attr fs(self) = len(gc.am), cl(self) = len(gc.cm)
-//@   closure-spec "return op.Calc(v)" as ParserFunc attr fs(self) = len(gc.am), cl(self) = len(gc.cm) assume op != nil
-//@   closure-spec "return op.Calc(st, aVal, bVal)" as ParserFunc attr fs(self) = len(gc.am), cl(self) = len(gc.cm) assume op != nil
-//@   closure-spec "Func: closureFunc," as ParserFunc attr fs(self) = len(gc.am), cl(self) = len(gc.cm) assume g.closureHandler != nil
-//@   closure-spec "List literal error" as ParserFunc attr fs(self) = len(gc.am), cl(self) = len(gc.cm) assume g.listHandler != nil
-//@   closure-spec "g.listHandler.AccessList(l, i)" as ParserFunc attr fs(self) = len(gc.am), cl(self) = len(gc.cm) assume g.listHandler != nil
-//@   closure-spec "Map literal error" as ParserFunc attr fs(self) = len(gc.am), cl(self) = len(gc.cm) trusted
-//@   closure-spec "g.mapHandler.AccessMap(l, a.Key)" as ParserFunc attr fs(self) = len(gc.am), cl(self) = len(gc.cm) assume g.mapHandler != nil
-//@   closure-spec "fun.Func(st.CreateFrame(len(argsFuncList)), nil)" as ParserFunc attr fs(self) = len(gc.am), cl(self) = len(gc.cm) assume staticOK(fun)
-//@   closure-spec "error in getting function" as ParserFunc attr fs(self) = len(gc.am), cl(self) = len(gc.cm)
-//@   closure-spec "error accessing method" as ParserFunc attr fs(self) = len(gc.am), cl(self) = len(gc.cm)
+//@   loop 1 invariant pure ==> pureFn(switchValueFunc) && pureFn(defaultFunc) && (forall i in 0..len(cases) :: pureFn(cases[i].constFunc) && pureFn(cases[i].resultFunc))
+//@   closure-spec "return a.Value, nil" as ParserFunc attr fs(self) = len(gc.am), cl(self) = len(gc.cm), pureFn(self) = true returns[const-value] result1 == nil && result0 == a.Value assume nonnil(a.Value)
+// name resolution: a name bound in the frame (argument, let) wins over a captured outer value of the same name
+//@   closure-spec "return st.Get(index), nil" as ParserFunc attr fs(self) = len(gc.am), cl(self) = len(gc.cm), pureFn(self) = true when[frame-slot-of-the-name] 0 <= index && index < len(gc.am) && gc.am[index] == a.Name returns[reads-that-slot] result1 == nil && result0 == old(stack.storage.data[stack.offs+index])
+//@   closure-spec "return cs[index], nil" as ParserFunc attr fs(self) = len(gc.am), cl(self) = len(gc.cm), pureFn(self) = true when[frame-binding-wins] 0 <= index && index < len(gc.cm) && gc.cm[index] == a.Name && (forall j in 0..len(gc.am) :: gc.am[j] != a.Name) returns[reads-that-capture] result1 == nil && result0 == old(closureStore[index])
+//@   closure-spec "st.Push(va)" as ParserFunc attr fs(self) = len(gc.am), cl(self) = len(gc.cm), pureFn(self) = (pureFn(valFunc) && pureFn(mainFunc))
+//@   closure-spec "g.toBool(condVal)" as ParserFunc attr fs(self) = len(gc.am), cl(self) = len(gc.cm), pureFn(self) = (pureFn(condFunc) && pureFn(thenFunc) && pureFn(elseFunc)) assume g.toBool != nil
+//@   closure-spec "error in switch-case" as ParserFunc attr fs(self) = len(gc.am), cl(self) = len(gc.cm), pureFn(self) = (pureFn(switchValueFunc) && pureFn(defaultFunc) && (forall i in 0..len(cases) :: pureFn(cases[i].constFunc) && pureFn(cases[i].resultFunc))) assume g.isEqual != nil
+//@   closure-spec "catchFunc(st, cs)" as ParserFunc attr fs(self) = len(gc.am), cl(self) = len(gc.cm), pureFn(self) = (pureFn(tryFunc) && pureFn(catchFunc))
+//@   closure-spec "return op.Calc(v)" as ParserFunc attr fs(self) = len(gc.am), cl(self) = len(gc.cm), pureFn(self) = pureFn(valFunc) assume op != nil
+//@   closure-spec "return op.Calc(st, aVal, bVal)" as ParserFunc attr fs(self) = len(gc.am), cl(self) = len(gc.cm), pureFn(self) = (pureFn(aFunc) && pureFn(bFunc) && pureImpl(op)) assume op != nil
+//@   closure-spec "Func: closureFunc," as ParserFunc attr fs(self) = len(gc.am), cl(self) = len(gc.cm), pureFn(self) = true assume g.closureHandler != nil
+//@   closure-spec "List literal error" as ParserFunc attr fs(self) = len(gc.am), cl(self) = len(gc.cm), pureFn(self) = (forall i in 0..len(itemFuncs) :: pureFn(itemFuncs[i])) assume g.listHandler != nil
+//@   closure-spec "g.listHandler.AccessList(l, i)" as ParserFunc attr fs(self) = len(gc.am), cl(self) = len(gc.cm), pureFn(self) = (pureFn(indexFunc) && pureFn(listFunc)) assume g.listHandler != nil
+//@   closure-spec "Map literal error" as ParserFunc attr fs(self) = len(gc.am), cl(self) = len(gc.cm), pureFn(self) = pure trusted
+//@   closure-spec "g.mapHandler.AccessMap(l, a.Key)" as ParserFunc attr fs(self) = len(gc.am), cl(self) = len(gc.cm), pureFn(self) = pureFn(mapFunc) assume g.mapHandler != nil
+//@   closure-spec "fun.Func(st.CreateFrame(len(argsFuncList)), nil)" as ParserFunc attr fs(self) = len(gc.am), cl(self) = len(gc.cm), pureFn(self) = (pureFn(fun.Func) && (forall i in 0..len(argsFuncList) :: pureFn(argsFuncList[i]))) assume staticOK(fun)
+//@   closure-spec "error in getting function" as ParserFunc attr fs(self) = len(gc.am), cl(self) = len(gc.cm), pureFn(self) = (pureFn(funcFunc) && (forall i in 0..len(argsFuncList) :: pureFn(argsFuncList[i])))
+//@   closure-spec "error accessing method" as ParserFunc attr fs(self) = len(gc.am), cl(self) = len(gc.cm), pureFn(self) = (pureFn(valFunc) && (forall i in 0..len(argsFuncList) :: pureFn(argsFuncList[i])))
 
 // the loops of the generated code: every argument is evaluated in the frame it was compiled for and then pushed
 //@ predicate frameKept(st any, s0 any, n int) = validStack(st) && slotsNonNil(st) && st.storage == s0.storage && st.offs == s0.offs && st.size == s0.size+n && len(st.storage.data) >= old(len(s0.storage.data)) && (ref(st.storage.data) == old(ref(s0.storage.data)) || fresh(st.storage.data)) && (forall i in 0..s0.offs+s0.size :: st.storage.data[i] == old(s0.storage.data[i]))
@@ -252,3 +279,49 @@ package funcGen
 //@   option body-only
 //@   loop 1 invariant frameKept(st, old(st), rangeidx) && 0 <= rangeidx && rangeidx <= len(argsFuncList)
 //@   loop 2 invariant frameKept(st, old(st), rangeidx+1) && 0 <= rangeidx && rangeidx <= len(methodArgsFuncList)
+
+// ---------------------------------------------------------------- C02: the optimizer's rewrites are unobservable
+// pureImpl(m): the implementation is a function of its operands (what IsPure declares); acImpl(m): it is associative and
+// commutative including its error behaviour (what the optimizer takes IsCommutative to mean when it regroups constants).
+// That the registered tables really have these laws is proved per table (law units, value/ and example/).
+//@ ghost func acImpl(impl any) bool
+//@ axiom ac-commutes: forall m any, a any, b any :: acImpl(m) ==> opOK(m, a, b) == opOK(m, b, a) && (opOK(m, a, b) ==> opV(m, a, b) == opV(m, b, a))
+//@ axiom ac-associates: forall m any, a any, b any, c any :: acImpl(m) ==> ((opOK(m, a, b) && opOK(m, opV(m, a, b), c)) == (opOK(m, b, c) && opOK(m, a, opV(m, b, c)))) && ((opOK(m, a, b) && opOK(m, opV(m, a, b), c)) ==> opV(m, opV(m, a, b), c) == opV(m, a, opV(m, b, c)))
+
+//@ func (o optimizer[V]) isConst
+//@   property C02
+//@   safety C04
+//@   ensures[const-node] result1 == (typeis(ast, *parser2.Const[V])) && (result1 ==> evOK(ast) && evV(ast) == box(result0))
+//@   assigns nothing
+
+// the generator's configuration is not changed once expressions are generated
+//@ immutable FunctionGenerator[V].listHandler, FunctionGenerator[V].mapHandler, FunctionGenerator[V].closureHandler, FunctionGenerator[V].methodHandler, FunctionGenerator[V].toBool, FunctionGenerator[V].isEqual, FunctionGenerator[V].customGenerator, FunctionGenerator[V].staticFunctions
+
+//@ func (o optimizer[V]) allConst
+//@   property C02
+//@   safety C04
+//@   ensures[all-const] result1 ==> len(result0) == len(asts) && fresh(result0) && (forall i in 0..len(asts) :: evOK(asts[i]) && evV(asts[i]) == box(result0[i]))
+//@   assigns nothing
+//@   loop 1 invariant 0 <= rangeidx && rangeidx <= len(asts) && len(con) == len(asts) && fresh(con) && (forall i in 0..rangeidx :: evOK(asts[i]) && evV(asts[i]) == box(con[i]))
+
+//@ func (g *FunctionGenerator[V]) GetParser
+//@   trusted
+//@   ensures result != nil
+//@   assigns any FunctionGenerator.parser, any FunctionGenerator.opMap, any FunctionGenerator.uMap
+
+//@ func (o optimizer[V]) Optimize
+//@   property C02
+//@   safety C04
+//@   requires o.g != nil && ast != nil && validStack(o.st)
+//@   requires[tables-linked] forall k string :: haskey(o.g.opMap, k) ==> o.g.opMap[k].Impl != nil && o.g.opMap[k].Impl == opimpl(k) && (o.g.opMap[k].IsPure ==> pureImpl(o.g.opMap[k].Impl)) && (o.g.opMap[k].IsCommutative ==> acImpl(o.g.opMap[k].Impl))
+//@   requires[unary-linked] forall k string :: haskey(o.g.uMap, k) ==> o.g.uMap[k].Impl != nil && o.g.uMap[k].Impl == unimpl(k)
+//@   requires[static-functions] forall k string :: haskey(o.g.staticFunctions, k) ==> staticOK(o.g.staticFunctions[k])
+//@   requires[flags-sound] flagsSound(o.g)
+// nothing registered as impure is executed while generating
+//@   assert[impure-operator-not-folded] "operator.Impl.Calc(o.st, ac, bc)" operator.IsPure && pureImpl(operator.Impl)
+//@   assert[impure-operator-not-regrouped-left] "operator.Impl.Calc(o.st, iac, bc)" operator.IsPure && pureImpl(operator.Impl)
+//@   assert[impure-operator-not-regrouped-right] "operator.Impl.Calc(o.st, ibc, bc)" operator.IsPure && pureImpl(operator.Impl)
+//@   assert[impure-static-function-not-called] "fu.Func(NewStack[V](c...), nil)" fu.IsPure && pureFn(fu.Func)
+//@   assert[impure-closure-not-called] "closure.Func(NewStack[V](c...), nil)" closure.IsPure && pureFn(closure.Func)
+//@   assert[impure-method-not-called] "fu.Func(NewStack[V](args...), nil)" fu.IsPure && pureFn(fu.Func)
+//@   ensures[same-outcome] result != nil && (typeis(ast, *parser2.Operate) || typeis(ast, *parser2.Unary) || typeis(ast, *parser2.If) || typeis(ast, *parser2.ListAccess) || typeis(ast, *parser2.MapAccess) ==> evOK(result) == evOK(ast) && (evOK(ast) ==> evV(result) == evV(ast)))
